@@ -785,6 +785,31 @@ pub fn build_pool(seed: u64, repo: &str, sz: &PoolSizes, focus: Option<&PoolFocu
             }
         }
     }
+    // (h) edge tokens: every character the tokenizers know (and a few they do not), and truncated function names,
+    //     at the start / at the end / doubled, around a handful of tiny bases - the systematic part of the
+    //     malformed class, so that every early-exit path of the lexers and parsers has some input that takes it
+    {
+        let alphabet: Vec<&str> = vec![
+            ".", ",", "(", ")", "!", "%", "^", "°", "⌊", "⌋", "⌈", "⌉", "π", "@", "e", "i", "p", "r", "w", "+", "-", "*", "/", "&", "|", "<", ">", "<<", ">>",
+            "²", "⁰", "#", "$", "?", "x", "_", "=", "~", "'", "\"", "rad", "pi", "si", "sq", "lo", "mi", "lambert_", "sin", "abs", "0x", "1e", "..", "0.", ".0",
+        ];
+        let bases = ["", "1", "@", "1+", "(@+2)*", "2*(", "abs(", "min(1,", "@^"];
+        for e in ALL_EV {
+            for (bi, b) in bases.iter().enumerate() {
+                for (ai, a) in alphabet.iter().enumerate() {
+                    // a deterministic thinning for the larger bases keeps the class around 250 entries per evaluator
+                    if bi >= 3 && (ai + bi) % 3 != 0 {
+                        continue;
+                    }
+                    let variants = [format!("{}{}", b, a), format!("{}{}", a, b), format!("{}{}{}", b, a, a)];
+                    let t = variants[(ai + bi) % 3].clone();
+                    if !t.is_empty() {
+                        add_expr(&mut pool, &mut r, e, t, "edge_tokens", 1);
+                    }
+                }
+            }
+        }
+    }
     // (c) near-miss malformed strings
     for e in ALL_EV {
         let v = vocab(Some(e));
